@@ -1,7 +1,6 @@
 import BFL.Gen.RaceTable
 import BFL.Proofs.RaceComplete
 import BFL.Proofs.RaceJoin
-import BFL.Proofs.RaceConfine
 /-
 C10 — the obligations that are re-checked against what the code says *now*: every statement
 here is evaluated by the kernel (`decide +kernel`, no axioms) on the table regenerated from the
@@ -71,18 +70,6 @@ theorem join_certified : table.joinCertifiedIn (reachClaim .controller) (reachCl
 
 /-- locksets only on rows whose object is `this`, and made of mutex members only -/
 theorem locks_certified : table.locksCertifiedB = true := by decide +kernel
-
-/-- **must hold**: the pseudo-members standing for the user's measurement model, likelihood model and
-    particle initialisation exist, the filtering role touches each of them, and no function the controller
-    role can reach has a row for any of them (no control command reaches `freeze()` & co.) -/
-theorem model_confined_cert : table.modelConfinedIn (reachClaim .controller) (reachClaim .filter) = true := by
-  decide +kernel
-
-/-- **must hold**: no function the controller role can reach invokes a hook of the user's filter
-    (`initialization_step`, `filtering_step`, `run_condition`, `log`, and the overriders in `SIS`) -/
-theorem hooks_confined_cert :
-    table.confinedIn hookStateFields (reachClaim .controller) (reachClaim .filter) = true := by
-  decide +kernel
 
 /-! ### consequences (no evaluation) -/
 
